@@ -492,12 +492,20 @@ def gen_delete_free(rng, spec, cfg, closure_names, i):
     return {"op": "delete", "obj": rng.choice(free)}
 
 
-def gen_install_service(rng, spec, cfg, closure_names, i):
+def gen_install_service(rng, spec, cfg, closure_names, i, refused=None):
     """A new service installed on a server of the system, used by no job (yet)."""
     servers = [n for n in by_cls(spec, ("Server", "BoaviztaCloudServer")) if n in closure_names]
     if not servers:
         return None
     name = f"svc_n{i}"
+    if (rng.random() < 0.35) if refused is None else refused:
+        # natural fault: a service that does not fit on a server of the computed system. Its construction is refused
+        # while the server is being recomputed (Service.after_init); the model has to stay exactly what it was.
+        attrs = {"server": ["ref", rng.choice(servers)]}
+        attrs.update({a: gen.qv(rng, "VideoStreaming", a, False, 0.1) for a in NUM_DEFAULTS.get("VideoStreaming", {})})
+        attrs["base_ram_consumption"] = ["q", float(rng.choice([1e5, 3e6])), "GB"]
+        return {"op": "refused_create", "tag": "install_service_refused", "name": name, "cls": "VideoStreaming",
+                "attrs": attrs}
     cls = rng.choice(["WebApplication", "VideoStreaming"])
     attrs = {"server": ["ref", rng.choice(servers)]}
     if cls == "WebApplication":
@@ -602,6 +610,13 @@ def gen_list_op_wild(rng, spec, cfg, closure_names, i):
     if not cands:
         return None
     name = pick_obj(rng, spec, cands, closure_names, 0.9)
+    # a list emptied in place earlier in the history (clear, *= 0, pops, del) is mutated in place again half of the
+    # time: whatever state the emptying call left in the list object itself is then exercised
+    emptied = [n for n in cands if not spec["objs"][n]["attrs"][LIST_ATTRS[spec["objs"][n]["cls"]][0]][1]]
+    refill = None
+    if emptied and rng.random() < 0.5:
+        name = rng.choice(emptied)
+        refill = rng.choice(["append", "extend", "iadd", "insert"])
     attr, elt_classes = LIST_ATTRS[spec["objs"][name]["cls"]]
     cur = list(spec["objs"][name]["attrs"][attr][1])
     pool = by_cls(spec, elt_classes)
@@ -609,6 +624,8 @@ def gen_list_op_wild(rng, spec, cfg, closure_names, i):
     m = rng.choice(["append", "insert", "extend", "iadd", "imul", "pop", "remove", "delitem", "setitem", "clear",
                     "extend", "iadd", "imul", "remove", "pop", "extend_self", "iadd_self", "extend_from", "delslice",
                     "setslice", "reverse", "sort"])
+    if refill is not None:
+        m = refill
     dups = sorted({x for x in cur if cur.count(x) > 1})
     if dups and rng.random() < 0.4:
         # an element held several times: removing / popping / deleting one occurrence must leave the others
@@ -644,7 +661,7 @@ def gen_list_op_wild(rng, spec, cfg, closure_names, i):
         n = rng.choice([0, 0, 1, 2])
         op["args"] = [[rng.choice(pool) for _ in range(n)]]
     elif m == "imul":
-        op["args"] = [rng.choice([1, 1, 2, 3] if keep_one else [0, 1, 1, 2, 3])]
+        op["args"] = [rng.choice([1, 1, 2, 3] if keep_one else [0, 0, -1, 1, 1, 2, 3])]
     elif m == "pop":
         choices = [[]]
         if cur:
@@ -795,10 +812,26 @@ def gen_cross_system(rng, spec, cfg, closure_names, i):
     if not cands:
         return None
     target, attr, method, arg = rng.choice(cands)
+    reverse = rng.random() < 0.5
+    if reverse:
+        # the other direction: an object of the first system - whose lists and links carry the whole history of the
+        # run - receives an object of the copy; lists emptied in place earlier in the history are preferred
+        emptied = [c for c in cands if c[2] != "set" and not spec["objs"][c[0][:-len(sfx)]]["attrs"][c[1]][1]]
+        if emptied and rng.random() < 0.7:
+            target, attr, method, arg = rng.choice(emptied)
+        target, arg = target[:-len(sfx)], arg + sfx
     if method != "set" and rng.random() < 0.5:
         # the offending object in front of the others (not the last newly linked one)
         method = rng.choice(["insert0", "setitem0", "assign_list_front"])
     op = {"op": "cross_system", "suffix": sfx, "target": target, "attr": attr, "method": method, "arg": arg}
+    if reverse:
+        op["reverse"] = True
+        if (method != "set" and attr in ("jobs", "uj_steps") and spec["objs"][target]["attrs"][attr][1]
+                and rng.random() < 0.5):
+            # preparatory accepted edit: the receiving list is first emptied in place, then refilled across systems
+            how = rng.choice([("imul", [0]), ("imul", [-1]), ("clear", [])])
+            op["prep"] = {"op": "list", "obj": target, "attr": attr, "method": how[0], "args": how[1]}
+        return op
     if rng.random() < 0.4 and cls[arg] in ("UsagePattern", "UsageJourney", "UsageJourneyStep") + tuple(S.JOB_CLASSES):
         # indirect: not the object of the first system itself, but a fresh copy of it (same links, no system yet)
         op["fresh_copy_of"] = arg
